@@ -6,6 +6,7 @@
 
 #pragma once
 
+#include <pika/config.hpp>
 #include <pika/assert.hpp>
 #include <pika/concurrency/cache_line_data.hpp>
 
@@ -120,14 +121,19 @@ namespace pika::concurrency::detail {
             range desired_range{0, 0};
             T index = 0;
 
+            PIKA_VERIF_POINT("ciq.load", this, 0, 0);
             range expected_range = current_range.data_.load(std::memory_order_relaxed);
+            PIKA_VERIF_POST("ciq.loaded", this, expected_range.first, expected_range.last);
 
             do {
+                PIKA_VERIF_POST("ciq.iter", this, expected_range.first, expected_range.last);
                 if (expected_range.empty()) { return std::nullopt; }
 
                 index = expected_range.first;
                 desired_range = expected_range.increment_first();
+                PIKA_VERIF_POINT("ciq.cas", this, 0, 0);
             } while (!current_range.data_.compare_exchange_weak(expected_range, desired_range));
+            PIKA_VERIF_POST("ciq.ok", this, desired_range.first, desired_range.last);
 
             return std::make_optional<>(index);
         }
@@ -141,14 +147,19 @@ namespace pika::concurrency::detail {
             range desired_range{0, 0};
             T index = 0;
 
+            PIKA_VERIF_POINT("ciq.load", this, 0, 0);
             range expected_range = current_range.data_.load(std::memory_order_relaxed);
+            PIKA_VERIF_POST("ciq.loaded", this, expected_range.first, expected_range.last);
 
             do {
+                PIKA_VERIF_POST("ciq.iter", this, expected_range.first, expected_range.last);
                 if (expected_range.empty()) { return std::nullopt; }
 
                 desired_range = expected_range.decrement_last();
                 index = desired_range.last;
+                PIKA_VERIF_POINT("ciq.cas", this, 0, 0);
             } while (!current_range.data_.compare_exchange_weak(expected_range, desired_range));
+            PIKA_VERIF_POST("ciq.ok", this, desired_range.first, desired_range.last);
 
             return std::make_optional(index);
         }
